@@ -260,3 +260,35 @@ Qed.
 
 Lemma zrange_1_nat (n : nat) : zrange 1 (Z.of_nat (Datatypes.S n)) 1 = map Z.of_nat (seq 1 n).
 Proof. change 1%Z with (Z.of_nat 1) at 1. rewrite zrange_nat. f_equal. f_equal. lia. Qed.
+
+(* ---- small list facts missing from the 8.16 standard library ---- *)
+Lemma nth_firstn_lt {A} (l : list A) : forall n i d, i < n -> nth i (firstn n l) d = nth i l d.
+Proof. induction l; intros [|n] [|i] d H; simpl; auto; try lia. apply IHl; lia. Qed.
+Lemma nth_skipn_add {A} (l : list A) : forall n i d, nth i (skipn n l) d = nth (n + i) l d.
+Proof. induction l; intros [|n] i d; simpl; auto. destruct i; auto. Qed.
+Lemma nth_repeat_lt {A} (a d : A) : forall m i, i < m -> nth i (repeat a m) d = a.
+Proof. induction m; intros [|i] H; simpl; auto; try lia. apply IHm; lia. Qed.
+Lemma upd_app_l {A} (l1 l2 : list A) i x : i < length l1 -> upd (l1 ++ l2) i x = upd l1 i x ++ l2.
+Proof. revert i; induction l1; intros [|i] H; simpl in *; try lia; auto. rewrite IHl1 by lia. reflexivity. Qed.
+Lemma upd_overflow {A} (l : list A) i x : length l <= i -> upd l i x = l.
+Proof. revert i; induction l; intros [|i] H; simpl in *; auto; try lia. rewrite IHl by lia. reflexivity. Qed.
+Lemma nth_upd {A} (l : list A) i j x d : nth j (upd l i x) d = if Nat.eqb i j then (if Nat.ltb j (length l) then x else d) else nth j l d.
+Proof.
+  destruct (Nat.eqb_spec i j) as [->|Hne].
+  - destruct (Nat.ltb_spec j (length l)).
+    + now apply nth_upd_same.
+    + rewrite upd_overflow by lia. now apply nth_overflow.
+  - now apply nth_upd_other.
+Qed.
+
+(* a list of lists as a matrix: rows exist and have the right length *)
+Lemma nth_nth_upd2 {A} (m : list (list A)) i j x a b d :
+  nth b (nth a (upd m i (upd (nth i m []) j x)) []) d =
+  if andb (Nat.eqb i a) (Nat.eqb j b) then (if andb (Nat.ltb a (length m)) (Nat.ltb b (length (nth a m []))) then x else d)
+  else nth b (nth a m []) d.
+Proof.
+  rewrite nth_upd. destruct (Nat.eqb_spec i a) as [->|Hne]; simpl; auto.
+  destruct (Nat.ltb_spec a (length m)); simpl.
+  - rewrite nth_upd. destruct (Nat.eqb_spec j b); auto.
+  - rewrite (nth_overflow m) by lia. destruct b; simpl; destruct (Nat.eqb j _); auto.
+Qed.
